@@ -26,8 +26,14 @@ class EncodingError(Exception):
     "the program is outside the encodable (well-typed, supported) subset"
 
 
+MAX_SLOTS = 40
+
+
 class Seq:
     def __init__(self, slots):
+        if len(slots) > MAX_SLOTS:
+            # nested conditionals / concat-maps multiply the guarded slots: beyond this size the query is not worth posing
+            raise EncodingError("sequence with more than %d guarded slots" % MAX_SLOTS)
         self.slots = slots
 
 
@@ -132,12 +138,15 @@ def is_z3(v):
     return isinstance(v, z3.ExprRef)
 
 
+_INT, _BOOL = z3.IntSort(), z3.BoolSort()
+
+
 def is_int(v):
-    return is_z3(v) and v.sort() == z3.IntSort()
+    return is_z3(v) and z3.is_int(v)
 
 
 def is_bool(v):
-    return is_z3(v) and v.sort() == z3.BoolSort()
+    return is_z3(v) and z3.is_bool(v)
 
 
 def as_bool(v):
@@ -233,6 +242,10 @@ def normalise_call(cx, name, args, kwargs):
 
 
 def const_value(cx, v):
+    if isinstance(v, bool) and cx is None:
+        return z3.BoolVal(v)
+    if isinstance(v, int) and cx is None:
+        return z3.IntVal(v)
     if isinstance(v, bool):
         return z3.BoolVal(v)
     if isinstance(v, int):
@@ -291,7 +304,7 @@ def call_fun(cx, f, args, kwargs, pc):
         bound[k] = v
     for p in f.params:
         if p not in bound:
-            if p in f.defaults:
+            if p in f.defaults and f.defaults[p] is not None:
                 bound[p] = f.defaults[p]
             else:
                 raise EncodingError("missing argument %s" % p)
@@ -422,12 +435,16 @@ def ev(cx, n, env, pc):
         return const_value(cx, n.value)
     if isinstance(n, ast.Lambda):
         a = n.args
-        if a.vararg or a.kwarg or a.kwonlyargs or a.posonlyargs:
+        if a.vararg or a.kwarg or a.posonlyargs:
             raise EncodingError("lambda with special parameters")
-        params = [x.arg for x in a.args]
+        pos = [x.arg for x in a.args]
+        params = pos + [x.arg for x in a.kwonlyargs]
         defaults = {}
-        for p, d in zip(params[len(params) - len(a.defaults):], a.defaults):
+        for p, d in zip(pos[len(pos) - len(a.defaults):], a.defaults):
             defaults[p] = ev(cx, d, env, pc)
+        for x, d in zip(a.kwonlyargs, a.kw_defaults):
+            if d is not None:
+                defaults[x.arg] = ev(cx, d, env, pc)
         return Fun(params, n.body, env, defaults)
     if isinstance(n, (ast.Tuple, ast.List)):
         return tuple(ev(cx, e, env, pc) for e in n.elts)
